@@ -10,7 +10,7 @@ LEVEL_TEXT = ("Every distinct behaviour of the user rules over the menu is execu
               "weighted and zero-rate paths go through the same oracle with an enumerating expovariate menu.")
 LEVEL_NOTE = "trusted: Dijkstra reference eonmc/ref.py:fpp; menus {0,1,2,inf} / 2-3 exponential magnitudes; <=3 (4) nodes"
 RULE = "one spec = (entry point, graph, insertion order, initial sets, horizon, rule form, return mode); every table behaviour enumerated; non-trivial = at least one delay consulted"
-BOUNDS = {"quick": "all graphs on <=3 nodes + P4,S4; |I0|<=2,|R0|<=1; 3 horizons incl. exact tmax hits; both rule forms; all node orders with seed orders on <=3 nodes; negative tmin; self-loops; 5 directed contact networks on 3 nodes; user rules answering with numpy scalars / ints; the documented extra-argument tuples; builders on P2,P3,K3,K2+K1",
+BOUNDS = {"quick": "all graphs on <=3 nodes + P4,S4; |I0|<=2,|R0|<=1; 3 horizons incl. exact tmax hits; both rule forms; all node orders with seed orders on <=3 nodes; negative tmin; self-loops; 5 directed contact networks on 3 nodes; user rules answering with numpy scalars / ints; the documented extra-argument tuples; builders on P2,P3,K3,K2+K1 and on 3 directed 3-node contact networks (path, path with a reciprocated edge, in-star)",
           "thorough": "adds C4,paw; builders on S4,P4; 3 exponential magnitudes"}
 ASSUMPTIONS = ["user rules are functions of (u,v)/(u) (memoised tables)", "small-scope hypothesis"]
 
